@@ -11,7 +11,7 @@ from functools import reduce
 import numpy as np
 
 from checks import sbcfam
-from gen import slabs
+from gen import slabs, structures
 from monitors import core, pipeline, sym
 from harness import main as hmain
 
@@ -99,6 +99,9 @@ def run_case(case):
         return out
     rng = np.random.default_rng(slabs.stable_seed(cell["key"], case["seed_class"], case["k"]))
     atoms, _ = slabs.present(base, rng, noise=cell["noise"])
+    # decorations that must not matter (own random stream: the presentation itself is unchanged)
+    drng = np.random.default_rng(slabs.stable_seed(cell["key"], case["seed_class"], 977))
+    decorations = structures.decorate(atoms, drng) if drng.random() < 0.35 else []
     ok, why = slabs.bonding_precondition(atoms)
     if not ok:
         out = rec.export(); out["discarded"] = "precondition:%s" % why; out["info"] = info0
@@ -145,6 +148,6 @@ def run_case(case):
         core.set_recorder(None)
     out = rec.export()
     out["info"] = {"key": cell["key"], "nontrivial": rec.counter(NAME)["judged"] > 0,
-                   "classes": {"prototype": proto, "kind": cell["kind"], "noise": cell["noise"], "tol": tol}}
+                   "classes": {"decorated": bool(decorations), "prototype": proto, "kind": cell["kind"], "noise": cell["noise"], "tol": tol}}
     out["sample"] = {"cell": cell["key"], "natoms": len(atoms), "observed": obs}
     return out
